@@ -75,6 +75,26 @@ Proof.
     destruct (db t0); try reflexivity; rewrite salt_token_ext; reflexivity.
 Qed.
 
+Lemma remote_request_ext db r remote : remote_request_k hm db r remote = remote_request db r remote.
+Proof. unfold remote_request, remote_request_k. rewrite legacy_ext. reflexivity. Qed.
+Lemma crc_ext lookup mint local remotes target creds rt aca user :
+  crc_k hm lookup mint local remotes target creds rt aca user = crc lookup mint local remotes target creds rt aca user.
+Proof. unfold crc, crc_k. cbv zeta. rewrite provider_ext. reflexivity. Qed.
+Lemma existsb_ext' {A} (f g : A -> bool) l : (forall x, f x = g x) -> existsb f l = existsb g l.
+Proof. intro H. induction l as [|x l IH]; [reflexivity|]. cbn [existsb]. rewrite H, IH. reflexivity. Qed.
+Lemma forallb_ext' {A} (f g : A -> bool) l : (forall x, f x = g x) -> forallb f l = forallb g l.
+Proof. intro H. induction l as [|x l IH]; [reflexivity|]. cbn [forallb]. rewrite H, IH. reflexivity. Qed.
+Lemma fwd_token_ext db t dest : fwd_token_k hm db t dest = fwd_token_k hmac_sha1_hex db t dest.
+Proof.
+  unfold fwd_token_k. rewrite (salt_token_ext t dest). change (salt_token_k hmac_sha1_hex t dest) with (salt_token t dest).
+  destruct (salt_token t dest); try reflexivity; destruct (db t); try reflexivity;
+    destruct (has_prefix dest user_uuid); try reflexivity; rewrite salt_token_ext; reflexivity.
+Qed.
+Lemma auth_explained_ext db r dest a : auth_explained_k hm db r dest a = auth_explained_k hmac_sha1_hex db r dest a.
+Proof. unfold auth_explained_k. f_equal. apply existsb_ext'. intro t. rewrite fwd_token_ext. reflexivity. Qed.
+Lemma conn_auth_ext lookup creds dest a : conn_auth_k hm lookup creds dest a = conn_auth_k hmac_sha1_hex lookup creds dest a.
+Proof. unfold conn_auth_k. rewrite provider_ext. reflexivity. Qed.
+
 Lemma spec_salt_ext token remote o : spec_salt_k hm token remote o = spec_salt_k hmac_sha1_hex token remote o.
 Proof. unfold spec_salt_k. destruct (classify token); rewrite ?Hhm; reflexivity. Qed.
 Lemma spec_fwd_ext local remote token : spec_fwd_k hm local remote token = spec_fwd_k hmac_sha1_hex local remote token.
@@ -92,14 +112,17 @@ Lemma spec_remote_ext token remote o : spec_remote_k hm token remote o = spec_re
 Proof. unfold spec_remote_k. destruct (classify token); rewrite ?Hhm; reflexivity. Qed.
 
 Lemma spec_k_ext c : spec_k hm c = spec_k hmac_sha1_hex c.
-Proof. destruct c; cbn [spec_k]; [apply spec_salt_ext|apply spec_prov_ext|apply spec_remote_ext|reflexivity]. Qed.
+Proof. destruct c; cbn [spec_k]; [apply spec_salt_ext|apply spec_prov_ext|apply spec_remote_ext|reflexivity..]. Qed.
 Lemma model_k_ext c : model_k hm c = model_k hmac_sha1_hex c.
 Proof.
   destruct c; cbn [model_k].
   - rewrite salt_token_ext. reflexivity.
   - rewrite provider_ext. reflexivity.
   - rewrite remote_client_ext. reflexivity.
-  - rewrite legacy_ext. reflexivity.
+  - rewrite remote_request_ext. reflexivity.
+  - apply forallb_ext'. intro q. apply auth_explained_ext.
+  - rewrite crc_ext. reflexivity.
+  - apply forallb_ext'. intro q. apply conn_auth_ext.
 Qed.
 End Ext.
 
@@ -317,20 +340,161 @@ Theorem model_meets_spec_remote token remote : spec_remote_k hmac_sha1_hex token
 Proof. rewrite spec_remote_vs_model. apply opt_eqb_eq. reflexivity. Qed.
 
 (* ---------- the known-finding bits are confined to the F6b trigger ---------- *)
+Lemma f6b_bits_narrow r secrets o_err wire :
+  f6b_bits r secrets o_err wire <> 0%N ->
+  o_err = false /\
+  found LAuth secrets wire = false /\ found LQuery secrets wire = false /\ found LOther secrets wire = false /\
+  (found LBody secrets wire = true \/ found LCookie secrets wire = true) /\
+  (found LBody secrets wire = true -> form_carries r secrets = true) /\
+  (found LCookie secrets wire = true -> cookie_carries r secrets = true) /\
+  f6b_bits r secrets o_err wire = ((if found LBody secrets wire then 4 else 0) + (if found LCookie secrets wire then 8 else 0))%N.
+Proof.
+  unfold f6b_bits.
+  destruct o_err, (found LAuth secrets wire), (found LQuery secrets wire), (found LOther secrets wire); cbn [orb]; try congruence.
+  destruct (found LBody secrets wire) eqn:Eb, (found LCookie secrets wire) eqn:Ec; cbn [negb orb andb];
+    destruct (form_carries r secrets), (cookie_carries r secrets); cbn [negb orb andb];
+    intro H; try congruence; try (exfalso; apply H; reflexivity); clear H; auto 10.
+Qed.
+
 Theorem known_bits_narrow c :
   known_F6b_bits c <> 0%N ->
-  exists r remote secrets o_auth o_query in_body in_cookie,
-    c = CLegacy r remote secrets false o_auth o_query false false in_body in_cookie false /\
-    (in_body = true \/ in_cookie = true) /\
-    (in_body = true -> form_carries r secrets = true) /\
-    (in_cookie = true -> cookie_carries r secrets = true) /\
-    known_F6b_bits c = ((if in_body then 4 else 0) + (if in_cookie then 8 else 0))%N.
+  exists r secrets wire,
+    ((exists remote dbt o_auth o_query, c = CLegacy r remote dbt secrets false o_auth o_query wire) \/
+     (exists dbt sent, c = CStack r dbt secrets sent /\ wire = all_parts sent)) /\
+    found LAuth secrets wire = false /\ found LQuery secrets wire = false /\ found LOther secrets wire = false /\
+    (found LBody secrets wire = true \/ found LCookie secrets wire = true) /\
+    (found LBody secrets wire = true -> form_carries r secrets = true) /\
+    (found LCookie secrets wire = true -> cookie_carries r secrets = true) /\
+    known_F6b_bits c = ((if found LBody secrets wire then 4 else 0) + (if found LCookie secrets wire then 8 else 0))%N.
 Proof.
-  destruct c as [| | |r remote secrets o_err o_auth o_query in_auth in_query in_body in_cookie in_other]; cbn [known_F6b_bits]; try congruence.
-  destruct o_err, in_auth, in_query, in_other; cbn [orb]; try congruence.
-  destruct ((negb in_body || form_carries r secrets) && (negb in_cookie || cookie_carries r secrets)) eqn:E; [|congruence].
-  intro Hne. exists r, remote, secrets, o_auth, o_query, in_body, in_cookie. split; [reflexivity|].
-  apply andb_true_iff in E. destruct E as [E1 E2].
-  split; [destruct in_body, in_cookie; auto; cbn in Hne; congruence|].
-  split; [intros ->; exact E1|]. split; [intros ->; exact E2|reflexivity].
+  destruct c as [| | |r remote dbt secrets o_err o_auth o_query wire|r dbt secrets sent| |]; cbn [known_F6b_bits]; try congruence.
+  - intro H. destruct (f6b_bits_narrow _ _ _ _ H) as (-> & H1). exists r, secrets, wire.
+    split; [left; exists remote, dbt, o_auth, o_query; reflexivity|exact H1].
+  - intro H. destruct (f6b_bits_narrow _ _ _ _ H) as (_ & H1). exists r, secrets, (all_parts sent).
+    split; [right; exists dbt, sent; auto|exact H1].
+Qed.
+
+(* ---------- non-disclosure at the wire: the boolean search against "occurs" ---------- *)
+Definition Occurs (sub s : string) : Prop := exists a b, s = a ++ sub ++ b.
+
+Lemma has_prefix_app p b : has_prefix p (p ++ b) = true.
+Proof. induction p as [|c p IH]; [destruct b; reflexivity|]. cbn [append has_prefix]. rewrite Ascii.eqb_refl, IH. reflexivity. Qed.
+Lemma has_prefix_inv p s : has_prefix p s = true -> exists b, s = p ++ b.
+Proof.
+  revert s. induction p as [|c p IH]; intros s H; [exists s; reflexivity|].
+  destruct s as [|d s]; [discriminate|]. cbn [has_prefix] in H. apply andb_true_iff in H. destruct H as [H1 H2].
+  apply Ascii.eqb_eq in H1. subst d. destruct (IH s H2) as [b ->]. exists b. reflexivity.
+Qed.
+Lemma contains_app a sub b : contains sub (a ++ sub ++ b) = true.
+Proof.
+  induction a as [|c a IH]; cbn [append].
+  - destruct (sub ++ b) eqn:E; cbn [contains]; rewrite <- E, has_prefix_app; reflexivity.
+  - cbn [contains]. rewrite IH. apply orb_true_r.
+Qed.
+Theorem contains_occurs sub s : contains sub s = true <-> Occurs sub s.
+Proof.
+  split.
+  - induction s as [|c r IH]; cbn [contains]; intro H.
+    + rewrite orb_false_r in H. destruct (has_prefix_inv _ _ H) as [b Hb]. exists "", b. exact Hb.
+    + apply orb_true_iff in H. destruct H as [H|H].
+      * destruct (has_prefix_inv _ _ H) as [b Hb]. exists "", b. exact Hb.
+      * destruct (IH H) as (a & b & ->). exists (String c a), b. reflexivity.
+  - intros (a & b & ->). apply contains_app.
+Qed.
+
+Lemma occurs_in_false secrets text : occurs_in secrets text = false <-> forall s, In s secrets -> ~ Occurs s text.
+Proof.
+  unfold occurs_in. split.
+  - intros H s Hs Ho. apply contains_occurs in Ho.
+    assert (existsb (fun s0 => contains s0 text) secrets = true) by (apply existsb_exists; exists s; auto). congruence.
+  - intro H. destruct (existsb (fun s => contains s text) secrets) eqn:E; [|reflexivity].
+    apply existsb_exists in E. destruct E as (s & Hs & Hc). apply contains_occurs in Hc. destruct (H s Hs Hc).
+Qed.
+
+(* clean_b: no secret occurs in any part of what leaves *)
+Theorem clean_b_reflects secrets wire :
+  clean_b secrets wire = true <-> forall s p, In s secrets -> In p wire -> ~ Occurs s (snd p).
+Proof.
+  unfold clean_b. rewrite forallb_forall. split.
+  - intros H s p Hs Hp. specialize (H p Hp). apply negb_true_iff in H. apply (proj1 (occurs_in_false _ _) H s Hs).
+  - intros H p Hp. apply negb_true_iff. apply occurs_in_false. intros s Hs. apply (H s p Hs Hp).
+Qed.
+
+(* the five places are all there is: nothing found at any place = clean *)
+Lemma clean_b_found secrets wire :
+  clean_b secrets wire =
+  negb (found LAuth secrets wire || found LQuery secrets wire || found LBody secrets wire ||
+        found LCookie secrets wire || found LOther secrets wire).
+Proof.
+  induction wire as [|[l t] w IH]; [reflexivity|].
+  unfold clean_b, found in *. cbn [forallb existsb fst snd]. rewrite IH.
+  destruct (occurs_in secrets t); [destruct l; cbn; rewrite ?orb_true_r; reflexivity|].
+  rewrite !andb_false_r. reflexivity.
+Qed.
+Theorem spec_wire_reflects o_err secrets wire :
+  spec_wire_b o_err secrets wire = true <->
+  (o_err = true \/ forall s p, In s secrets -> In p wire -> ~ Occurs s (snd p)).
+Proof.
+  unfold spec_wire_b, spec_legacy_b. rewrite <- clean_b_found, orb_true_iff, clean_b_reflects. tauto.
+Qed.
+
+(* ContainerRequestCreate: the protected secrets, in words *)
+Lemma crc_secrets_spec local creds aca s :
+  In s (crc_secrets local creds aca) <->
+  ((exists t uuid, In t creds /\ v2_fields t uuid s /\ is_salted_secret s = false /\
+                   has_prefix local uuid = true /\ 40 < String.length s) \/
+   (exists uuid scopes, aca = Some (uuid, s, scopes) /\ has_prefix local uuid = true /\ 40 < String.length s)).
+Proof.
+  unfold crc_secrets. rewrite in_app_iff, in_flat_map. split.
+  - intros [(t & Ht & Hin)|Hin].
+    + left. destruct (classify_total t) as [Hn|(u & s' & Hv)].
+      * rewrite (classify_not_v2 _ Hn) in Hin. destruct (is_obsolete t); destruct Hin.
+      * rewrite (classify_v2 _ _ _ Hv) in Hin. destruct (is_salted_secret s') eqn:Hs; [destruct Hin|].
+        destruct (has_prefix local u) eqn:Hp; [|destruct Hin].
+        destruct (Nat.ltb_spec 40 (String.length s')) as [Hl|]; [|destruct Hin].
+        destruct Hin as [<-|[]]. exists t, u. auto.
+    + right. destruct aca as [[[uuid api] scopes]|]; [|destruct Hin].
+      destruct (has_prefix local uuid) eqn:Hp; [|destruct Hin].
+      destruct (Nat.ltb_spec 40 (String.length api)) as [Hl|]; [|destruct Hin].
+      destruct Hin as [<-|[]]. exists uuid, scopes. auto.
+  - intros [(t & u & Ht & Hv & Hs & Hp & Hl)|(uuid & scopes & -> & Hp & Hl)].
+    + left. exists t. split; [exact Ht|]. rewrite (classify_v2 _ _ _ Hv), Hs, Hp.
+      destruct (Nat.ltb_spec 40 (String.length s)); [left; reflexivity|lia].
+    + right. rewrite Hp. destruct (Nat.ltb_spec 40 (String.length s)); [left; reflexivity|lia].
+Qed.
+
+Theorem spec_crc_reflects local creds rt aca o_sent o_rt wire :
+  spec_crc_b local creds rt aca o_sent o_rt wire = true <->
+  ((forall s p, In s (crc_secrets local creds aca) -> In p wire -> ~ Occurs s (snd p)) /\
+   (o_sent = true -> rt = None -> forall uuid api scopes, aca = Some (uuid, api, scopes) ->
+      has_prefix local uuid = true -> o_rt <> Some ("v2/" ++ uuid ++ "/" ++ api))).
+Proof.
+  unfold spec_crc_b. rewrite andb_true_iff, clean_b_reflects, negb_true_iff.
+  assert (Hc : (o_sent && current_token_forwarded local rt aca o_rt) = false <->
+               (o_sent = true -> rt = None -> forall uuid api scopes, aca = Some (uuid, api, scopes) ->
+                  has_prefix local uuid = true -> o_rt <> Some ("v2/" ++ uuid ++ "/" ++ api))).
+  { unfold current_token_forwarded. destruct o_sent; cbn [andb]; [|split; [discriminate|reflexivity]].
+    destruct rt as [g|]; [split; [discriminate|reflexivity]|].
+    destruct aca as [[[uuid api] scopes]|]; [|split; [discriminate|reflexivity]].
+    destruct (has_prefix local uuid) eqn:Hp; cbn [andb].
+    - split.
+      + intros H _ _ u a sc E. injection E as <- <- <-. intros _ Ho. subst o_rt.
+        assert (opt_eqb (Some ("v2/" ++ uuid ++ "/" ++ api)) (Some ("v2/" ++ uuid ++ "/" ++ api)) = true) by (apply opt_eqb_eq; reflexivity). congruence.
+      + intro H. destruct (opt_eqb o_rt (Some ("v2/" ++ uuid ++ "/" ++ api))) eqn:E; [|reflexivity].
+        apply opt_eqb_eq in E. destruct (H eq_refl eq_refl uuid api scopes eq_refl Hp E).
+    - split; [|reflexivity]. intros _ _ _ u a sc E. injection E as <- <- <-. congruence. }
+  rewrite Hc. tauto.
+Qed.
+
+(* the model's output satisfies the runtime_token clause: a current token issued here is never forwarded *)
+Theorem model_meets_spec_crc lookup mint local remotes target creds aca user a t :
+  (forall u t', mint u = Some t' -> forall uuid api scopes, aca = Some (uuid, api, scopes) -> t' <> "v2/" ++ uuid ++ "/" ++ api) ->
+  crc lookup mint local remotes target creds None aca user = CrcSent a t ->
+  current_token_forwarded local None aca (Some t) = false.
+Proof.
+  intros Hm H. apply crc_sent_runtime_token in H. destruct H as [_ [H|(_ & uuid & api & scopes & -> & Hs & H)]]; [discriminate|].
+  unfold current_token_forwarded. destruct H as [(Hp & u & -> & Hu)|(Hp & ->)].
+  - rewrite Hp. cbn [andb]. destruct (opt_eqb (Some t) (Some ("v2/" ++ uuid ++ "/" ++ api))) eqn:E; [|reflexivity].
+    apply opt_eqb_eq in E. injection E as ->. destruct (Hm u _ Hu uuid api scopes eq_refl eq_refl).
+  - rewrite Hp. reflexivity.
 Qed.
